@@ -60,18 +60,38 @@ func TestVerif(t *testing.T) {
 		return
 	}
 	r := run.Rand
-	na := run.Scale(2000, 40000)
+	na := run.Scale(2000, 800000)
 	ra := r.Fork()
 	applyFixed()
 	for i := 0; i < na; i++ {
 		applyCase(genApplyLine(ra))
 	}
-	nm := run.Scale(150, 3000)
+	nm := run.Scale(150, 120000)
 	rm := r.Fork()
 	for i := 0; i < nm; i++ {
 		mergeCase(t, genMerge(rm, run.Thorough()))
 	}
-	ne := run.Scale(120, 3000)
+	// every schedule of 2 callers (3 in the thorough tier) with at most one (two) failures
+	nx := exploreMerge(t, 2, 2, 100000) + exploreMerge(t, 3, 1, 100000)
+	if run.Thorough() {
+		nx += exploreMerge(t, 3, 3, 800000) + exploreMerge(t, 4, 2, 400000) + exploreMerge(t, 5, 1, 400000)
+	}
+	run.Extra["merge_schedules_enumerated"] = nx
+	// every release order of the HTTP exchanges of 2 (thorough: 3) concurrent operations
+	// on one subject with a pre-existing referrer, with at most one injected index failure
+	ex := 0
+	for _, skip := range []bool{false, true} {
+		for _, kinds := range [][]string{{"push", "push"}, {"push", "delete"}, {"delete", "delete"}} {
+			ex += exploreE2E(t, kinds, skip, 1, run.Scale(400, 20000))
+		}
+		if run.Thorough() {
+			for _, kinds := range [][]string{{"push", "push", "delete"}, {"push", "delete", "delete"}, {"push", "push", "push"}} {
+				ex += exploreE2E(t, kinds, skip, 1, 60000)
+			}
+		}
+	}
+	run.Extra["e2e_schedules_enumerated"] = ex
+	ne := run.Scale(120, 120000)
 	re := r.Fork()
 	for i := 0; i < ne; i++ {
 		e2eCase(t, genE2E(re, run.Thorough()))
@@ -132,6 +152,31 @@ func e2eCase(t *testing.T, c *E2ECase) {
 	// are a schedule of the Merge transition system of that tag (X line); the model
 	// must accept it and predict every caller's result and the final index
 	if !res.Deadlock {
+		// D lines: artifact type that indexReferrersForPush stored for a manifest pushed in this run
+		for s := 0; s < c.NSubjects; s++ {
+			for _, it := range res.Listings[s].Items {
+				if it.Man < 0 {
+					continue
+				}
+				pushed := false
+				for _, ops := range c.Rounds {
+					for _, o := range ops {
+						if o.Man == it.Man && o.Kind == "push" && res.Ops[o.ID].Outcome != "err" {
+							pushed = true
+						}
+					}
+				}
+				if !pushed {
+					continue
+				}
+				m := c.Mans[it.Man]
+				cfg := 0
+				if m.Kind == "image" {
+					cfg = typeID(m.ConfigMT)
+				}
+				run.Case(run.NewID(), fmt.Sprintf("D %s %d %d", m.Kind, typeID(m.ArtifactType), cfg), fmt.Sprintf("D %d", typeID(it.ArtifactType)))
+			}
+		}
 		for s := 0; s < c.NSubjects; s++ {
 			if in, obs, ok := xLine(c, res, s); ok {
 				run.Case(run.NewID(), in, obs)
@@ -226,4 +271,59 @@ func xLine(c *E2ECase, res *E2EResult, s int) (string, string, bool) {
 	in := fmt.Sprintf("X %d %s %s %s", sg, keyList(c.PreIndex[s]), strings.Join(specs, ","), strings.Join(evs, " "))
 	obs := fmt.Sprintf("ACC R %s I %s", strings.Join(rs, ","), keyList(res.IndexTagged[s]))
 	return in, obs, true
+}
+
+// exploreE2E enumerates the release orders (and single index failures) of one round
+// of concurrent operations on one subject that already has two live referrers.
+func exploreE2E(t *testing.T, kinds []string, skipGC bool, maxFaults, limit int) int {
+	base := &E2ECase{Seed: 1, SkipGC: skipGC, NSubjects: 1, MaxFaults: maxFaults, Explore: true}
+	base.Mans = []Man{{Subject: 0, Kind: "image", ConfigMT: cfgTypes[0], Salt: 0}, {Subject: 0, Kind: "artifact", ArtifactType: artTypes[1], Salt: 1}}
+	base.PreLive = []int{0, 1}
+	base.PreIndex = [][]int{{0, 1, 0}}
+	var ops []Op
+	del := 0
+	for i, k := range kinds {
+		if k == "delete" && del < 2 {
+			ops = append(ops, Op{ID: i, Kind: "delete", Man: del})
+			del++
+		} else {
+			base.Mans = append(base.Mans, Man{Subject: 0, Kind: "image", ConfigMT: cfgTypes[1], Ann: map[string]string{"k": fmt.Sprint(i)}, Salt: 10 + i})
+			ops = append(ops, Op{ID: i, Kind: "push", Man: len(base.Mans) - 1})
+		}
+	}
+	base.Rounds = [][]Op{ops}
+	var choices []int
+	runs := 0
+	for runs < limit {
+		c := base.clone()
+		c.Explore, c.Choices = true, choices
+		e2eCase(t, c)
+		runs++
+		cur := make([]int, len(c.optCounts))
+		copy(cur, choices)
+		i := len(cur) - 1
+		for i >= 0 && cur[i]+1 >= c.optCounts[i] {
+			i--
+		}
+		if i < 0 {
+			break
+		}
+		cur[i]++
+		choices = cur[:i+1]
+	}
+	return runs
+}
+
+// typeID interns a media / artifact type ("" = 0).
+func typeID(t string) int {
+	if t == "" {
+		return 0
+	}
+	all := append(append([]string{}, artTypes[1:]...), cfgTypes...)
+	for i, x := range all {
+		if x == t {
+			return i + 1
+		}
+	}
+	return 99
 }
